@@ -339,7 +339,16 @@ fn slice_root<B: BitmapSlice>(
         frontier = next;
     }
     for (chain, (doff, dlen)) in &chains {
-        let ops = ops_for(*dlen, p, thorough);
+        // thorough tier: the complete container alphabet of C04 on the root accessor
+        let ops = if thorough && chain.is_empty() && max_depth >= 3 {
+            let mut v = super::c04::alphabet(*dlen, false);
+            v.extend(ops_for(*dlen, p, thorough));
+            let mut seen = std::collections::HashSet::new();
+            v.retain(|o| seen.insert(*o));
+            v
+        } else {
+            ops_for(*dlen, p, thorough)
+        };
         for start in [Start::Clean, Start::Checker, Start::AllDirty] {
             if start == Start::AllDirty && !chain.is_empty() && !thorough {
                 continue;
